@@ -269,7 +269,7 @@ def run(tier, seed):
                                     theorem=pg['theorems'], problems=pg['problems']), False))
     ncases = 64 if tier == 'quick' else 640
     cases = [seed * 100000 + 14000 + i for i in range(ncases)]
-    for r in core.run_cases(run_case, cases):
+    for r in core.run_cases(run_case, core.with_corpus(PID, cases)):
         rep.merge(r)
     rep.obligation('correspondence: the composition of the extracted writer models (colander, combine, chef), each fed the previous '
                    "model's output image, = the directory written by the tool chain after every hop",
